@@ -185,8 +185,44 @@ def host(repo):
                 ipv6MinLen=int(lo), ipv6MaxLen=int(hi), ipv6DigitMax=dmax, ipv6GroupMax=gmax), idx
 
 
+def date(repo):
+    """source/date_time.c: the bound on the index written into dt->tz by s_parse_rfc_822 against sizeof(tz), and the number of
+    bytes STR_TRIPLET_TO_INDEX reads against the length get_month_number_from_str requires"""
+    h = _strip_comments(_read(repo, "include/aws/common/date_time.h"))
+    tz_size = int(_one(r"char\s+tz\s*\[(\d+)\]\s*;", h, "aws_date_time.tz"))
+    max_len = int(_one(r"AWS_DATE_TIME_STR_MAX_LEN\s*=\s*(\d+)", h, "AWS_DATE_TIME_STR_MAX_LEN"))
+    raw = _read(repo, "source/date_time.c")
+    t = _strip_comments(raw)
+    b = _body(t, r"static\s+bool\s+s_parse_rfc_822\s*\([^)]*\)\s*\{", "s_parse_rfc_822")
+    stores = re.findall(r"dt->tz\s*\[([^\]]*)\]\s*=", b)
+    if len(stores) != 1 or re.sub(r"\s+", "", stores[0]) != "index-state_start_index":
+        raise GenError("s_parse_rfc_822: stores into dt->tz are not the single `dt->tz[index - state_start_index] = c`: %r" % (stores,))
+    op, n = _one(r"\(\s*index\s*-\s*state_start_index\s*\)\s*(<=|<)\s*(\d+)\s*\)\s*\{\s*dt->tz\[", b, "tz index guard")
+    tz_index_end = int(n) + (1 if op == "<=" else 0)          # indices written are < tz_index_end
+    lop, ln = _one(r"while\s*\(\s*!error\s*&&\s*index\s*(<=|<)\s*len\s*\)", b, "rfc822 loop bound"), None
+    if lop != "<":
+        raise GenError("s_parse_rfc_822: loop bound is `index %s len`" % lop)
+    mac = re.search(r"#define\s+STR_TRIPLET_TO_INDEX\(str\)((?:.*\\\n)*.*)\n", raw)
+    if not mac:
+        raise GenError("STR_TRIPLET_TO_INDEX not found")
+    idx = [int(i) for i in re.findall(r"\(str\)\s*\[(\d+)\]", mac.group(1))]
+    if not idx:
+        raise GenError("STR_TRIPLET_TO_INDEX reads nothing?")
+    m = _body(t, r"static\s+int\s+get_month_number_from_str\s*\([^)]*\)\s*\{", "get_month_number_from_str")
+    mop, mn = _one(r"if\s*\(\s*stop_index\s*-\s*start_index\s*(<=|<)\s*(\d+)\s*\)\s*\{\s*return\s*-1\s*;", m, "month length guard")
+    month_min = int(mn) + (1 if mop == "<=" else 0)           # proceeds only when stop - start >= month_min
+    if not re.search(r"STR_TRIPLET_TO_INDEX\(\s*time_string\s*\+\s*start_index\s*\)", m):
+        raise GenError("get_month_number_from_str: triplet is not read at time_string + start_index")
+    pre = _one(r"AWS_ERROR_PRECONDITION\(\s*date_str_cursor->len\s*<=\s*(\w+)\s*,", t, "init_from_str_cursor length precondition")
+    if pre != "AWS_DATE_TIME_STR_MAX_LEN":
+        raise GenError("init_from_str_cursor: length precondition bound is %s" % pre)
+    return dict(dateTzSize=tz_size, dateTzIndexEnd=tz_index_end, dateTripletReads=max(idx) + 1, dateMonthMinLen=month_min,
+                dateStrMaxLen=max_len)
+
+
 def generate(repo):
     vals = {}
+    vals.update(date(repo))
     vals.update(read_hex(repo))
     vals.update(uuid(repo))
     hv, idx6 = host(repo)
